@@ -98,3 +98,78 @@ pub fn h1(s: &RS) -> Option<Vec<i128>> {
 }
 
 pub const POINT_GROUP_ORDERS: [usize; 8] = [1, 2, 3, 4, 6, 8, 12, 24];
+
+/// The tiling of space by right prisms over a 2-dimensional tiling, with the mirror symmetries of the layers:
+/// three chambers A, B, C per chamber d of the 2-dimensional symbol `t` (A: base edge in a base face, B: base
+/// edge in a side face, C: vertical edge in a side face).  Euclidean whenever `t` is; its group is the
+/// wallpaper group of `t` times the infinite dihedral group.  None if some degree is not a multiple of its
+/// orbit length (does not happen for valid `t`).
+pub fn prism_over(t: &RS) -> Option<RS> {
+    if t.dim() != 2 {
+        return None;
+    }
+    let n = t.n;
+    let (a, b, c) = (|d: usize| d, |d: usize| n + d, |d: usize| 2 * n + d);
+    let mut ops = vec![vec![0usize; 3 * n]; 4];
+    let mut m = vec![vec![0usize; 3 * n]; 3];
+    for d in 0..n {
+        let (s0, s1, s2) = (t.ops[0][d], t.ops[1][d], t.ops[2][d]);
+        ops[0][a(d)] = a(s0);
+        ops[1][a(d)] = a(s1);
+        ops[2][a(d)] = b(d);
+        ops[3][a(d)] = a(d);
+        ops[0][b(d)] = b(s0);
+        ops[1][b(d)] = c(d);
+        ops[2][b(d)] = a(d);
+        ops[3][b(d)] = b(s2);
+        ops[0][c(d)] = c(d);
+        ops[1][c(d)] = b(d);
+        ops[2][c(d)] = c(s1);
+        ops[3][c(d)] = c(s2);
+        let m01 = t.r(0, 1, d) * t.v[0][d];
+        let m12 = t.r(1, 2, d) * t.v[1][d];
+        m[0][a(d)] = m01;
+        m[0][b(d)] = 4;
+        m[0][c(d)] = 4;
+        for x in [a(d), b(d), c(d)] {
+            m[1][x] = 3;
+        }
+        m[2][a(d)] = 4;
+        m[2][b(d)] = 4;
+        m[2][c(d)] = m12;
+    }
+    let plain = RS::from_ops(ops.clone());
+    let mut v = vec![vec![0usize; 3 * n]; 3];
+    for i in 0..3 {
+        for d in 0..3 * n {
+            let r = plain.r(i, i + 1, d);
+            if r == 0 || m[i][d] % r != 0 {
+                return None;
+            }
+            v[i][d] = m[i][d] / r;
+        }
+    }
+    Some(RS { n: 3 * n, ops, v })
+}
+
+/// every euclidean (curvature 0) 2-dimensional symbol on one representative per class of D-sets of size <= max_n,
+/// branching in 1..=6
+pub fn euclidean_2d_symbols(max_n: usize) -> Vec<RS> {
+    let mut out = vec![];
+    for n in 1..=max_n {
+        let mut reps: BTreeSet<Vec<Vec<usize>>> = BTreeSet::new();
+        for_each_labeled_set(2, n, true, &mut |ops| {
+            if ops_connected(ops) {
+                reps.insert(RS::from_ops(ops.clone()).iso_key_bfs().ops);
+            }
+        });
+        for ops in reps {
+            for_each_branching(&ops, &[1, 2, 3, 4, 5, 6], usize::MAX, &mut |s| {
+                if s.curvature2d().0 == 0 {
+                    out.push(s.clone());
+                }
+            });
+        }
+    }
+    out
+}
